@@ -33,6 +33,23 @@ func errClass(out string) string {
 	return strings.ReplaceAll(out, " ", "_")
 }
 
+// closeFailure: the reason CLASS of a rejected finalize/cancel.
+func closeFailure(out string) string {
+	switch {
+	case strings.Contains(out, "error removing offer"):
+		return "offer-underflow"
+	case strings.Contains(out, "unknown finalization initiator"), strings.Contains(out, "only owner can cancel"):
+		return "unauthorised"
+	case strings.Contains(out, "not expired yet"):
+		return "not-expired"
+	case strings.Contains(out, "trying to cancel expired"):
+		return "expired"
+	case strings.Contains(out, "value not present"):
+		return "absent"
+	}
+	return "other:" + errClass(out)
+}
+
 // splitOp separates the operation from the recorded observations ("op args ; obs").
 func splitOp(line string) (op []string, obs []string) {
 	parts := strings.SplitN(line, ";", 2)
@@ -93,10 +110,110 @@ type stakeSettings struct {
 	ServiceCharge  float64 `json:"service_charge"`
 }
 
+// ---------------------------------------------------------------- well-formedness (mirrored by Drv/STORAGE.lean `parse`)
+
+func isNat(s string) bool { // decimal, < 2^63
+	if s == "" || len(s) > 19 {
+		return false
+	}
+	for _, c := range s {
+		if c < '0' || c > '9' {
+			return false
+		}
+	}
+	_, err := strconv.ParseInt(s, 10, 64)
+	return err == nil
+}
+
+func isIdx(s string, bound int) bool { return isNat(s) && atoi64(s) < int64(bound) }
+
+func isCaller(s string) bool {
+	if len(s) < 2 || !isNat(s[1:]) {
+		return false
+	}
+	switch s[0] {
+	case 'c':
+		return isIdx(s[1:], nClients)
+	case 'b':
+		return isIdx(s[1:], nBlobbers)
+	case 'v':
+		return isIdx(s[1:], nValidators)
+	case 'o':
+		return true
+	}
+	return false
+}
+
+func provBound(kind string) int {
+	if kind == "v" {
+		return nValidators
+	}
+	return nBlobbers
+}
+
+func isOptIdx(s string, bound int) bool { return s == "-" || isIdx(s, bound) }
+func isOptNat(s string) bool          { return s == "-" || isNat(s) }
+
+// wellFormed: arity and token classes of every operation kind; anything else is answered `bad-op` by both sides.
+func wellFormed(op []string) bool {
+	n := len(op) - 1
+	a := op[1:]
+	isP := func(s string) bool { return s == "b" || s == "v" }
+	switch op[0] {
+	case "addb":
+		return n == 6 && isIdx(a[0], nBlobbers) && isNat(a[1]) && isNat(a[2]) && isNat(a[3]) && isIdx(a[4], nClients) && isNat(a[5])
+	case "addv":
+		return n == 2 && isIdx(a[0], nValidators) && isIdx(a[1], nClients)
+	case "stake":
+		return n == 4 && isP(a[0]) && isIdx(a[1], provBound(a[0])) && isIdx(a[2], nClients) && isNat(a[3])
+	case "unstake", "collect":
+		return n == 3 && isP(a[0]) && isIdx(a[1], provBound(a[0])) && isIdx(a[2], nClients)
+	case "newa":
+		if !(n == 6 && isIdx(a[0], nClients) && isNat(a[1]) && isNat(a[2]) && isNat(a[3]) && isNat(a[4])) {
+			return false
+		}
+		for _, b := range strings.Split(a[5], ",") {
+			if !isIdx(b, nBlobbers) {
+				return false
+			}
+		}
+		return true
+	case "upd":
+		return n == 7 && isNat(a[0]) && isCaller(a[1]) && isNat(a[2]) && isNat(a[3]) && (a[4] == "0" || a[4] == "1") && isOptIdx(a[5], nBlobbers) && isOptIdx(a[6], nBlobbers)
+	case "commit":
+		z := a
+		if n == 3 && strings.HasPrefix(z[2], "-") {
+			return isNat(z[0]) && isIdx(z[1], nBlobbers) && isNat(z[2][1:])
+		}
+		return n == 3 && isNat(a[0]) && isIdx(a[1], nBlobbers) && isNat(a[2])
+	case "genc":
+		return n == 0
+	case "resp":
+		return n == 3 && isNat(a[0]) && isIdx(a[1], nBlobbers) && (a[2] == "pass" || a[2] == "fail")
+	case "kill":
+		return n == 2 && isP(a[0]) && isIdx(a[1], provBound(a[0]))
+	case "shut":
+		return n == 2 && a[0] == "b" && isIdx(a[1], nBlobbers)
+	case "fin", "cancel":
+		return n == 2 && isNat(a[0]) && isCaller(a[1])
+	case "wpl":
+		return n == 3 && isNat(a[0]) && isIdx(a[1], nClients) && isNat(a[2])
+	case "rpl":
+		return n == 2 && isIdx(a[0], nClients) && isNat(a[1])
+	case "rpu":
+		return n == 1 && isIdx(a[0], nClients)
+	case "updb":
+		return n == 3 && isIdx(a[0], nBlobbers) && isOptNat(a[1]) && isOptNat(a[2])
+	case "tick":
+		return n == 3 && isNat(a[0]) && isNat(a[1]) && (a[2] == "0" || a[2] == "1")
+	}
+	return false
+}
+
 // run executes one operation; returns "status obs..." (without the snapshot).
 func (x *world) run(op []string) string {
 	bad := "bad-op"
-	if len(op) == 0 {
+	if len(op) == 0 || !wellFormed(op) {
 		return bad
 	}
 	before := x.snapshot()
@@ -333,7 +450,7 @@ func (x *world) run(op []string) string {
 		}
 		r := x.exec(c, fn, 0, map[string]string{"allocation_id": x.allocID(k)})
 		if r.status != "ok" {
-			return st(r) + " " + errClass(r.out)
+			return st(r) + " " + closeFailure(r.out)
 		}
 		return "ok " + x.closeObs(before, x.snapshot(), k)
 	case "wpl": // wpl k j value
